@@ -136,7 +136,10 @@ theorem C14_reduce_total : ∀ (n : Nat) (e : Expr), NoPanic (reduceF n e) := by
 theorem C14_expr_reduce_total (e : Expr) : NoPanic e.reduce := C14_reduce_total _ _
 
 theorem np_exprIntoNumber (e : Expr) : NoPanic (exprIntoNumber e) := by
-  unfold exprIntoNumber; split <;> first | exact np_ok _ | exact np_err _
+  fun_induction exprIntoNumber e with
+  | case1 m => exact np_ok _
+  | case2 p a e ih => exact ih
+  | case3 e h1 h2 => exact np_err _
 
 theorem np_liftNum (x : Outcome Int) (h : NoPanic x) : NoPanic (liftNum x) := by
   unfold liftNum
